@@ -148,6 +148,8 @@ MODEL_CHOICES = [
 ]
 
 BF_CHOICES = ["1.0", "0.5", "0.25", "0.125", "1", "0.3", "0.0271", "0.0542", "1e-3", "2E-4", ".5", "1.", "0.98823", "0.6770",
+              # a line with branching fraction zero is a line like any other
+              "0", "0.000",
               # fractions with many digits, values next to a round one, rare modes
               "0.91234567891", "0.333333333333", "0.74999999964", "3.6e-10", "1.2E-12", "0.000000000437"]
 
